@@ -586,6 +586,12 @@ _SEEDS = [
 
 _STATIC_SEEDS = [
     ("infinite-while", "while while-true", False, "def f(a, b):\n    while True:\n        pass\n"),
+    # a cold handler block laid out after an infinite loop of try statements: the CDG has a cycle of
+    # unlabelled edges that is entered at a node without a direct entry edge
+    ("try-return-then-loop-of-tries", "try except if return while while-true", False,
+     "def f(a, b):\n    try:\n        if a:\n            return 1\n    except:\n        pass\n    while True:\n"
+     "        try:\n            a()\n        except ValueError:\n            pass\n        try:\n            a()\n"
+     "        except KeyError:\n            pass\n"),
     ("infinite-while-if", "while while-true if", False,
      "def f(a, b):\n    while True:\n        if a:\n            b = 1\n        else:\n            b = 2\n"),
     ("infinite-while-try", "while while-true try except", False,
